@@ -498,6 +498,11 @@ func c20Probe(limits bool) func(w *mintops.W) {
 			}
 		}
 		x.expectErr("unknown-keyset-12001(GET keys/{id})", x.call("GET", "/v1/keys/00ffffffffffffff", "\x00nobody"), 12001)
+		// path variables that are no keyset ids but words a response cache could use as keys of other entries (GET /v1/keys
+		// and GET /v1/info have been answered just before)
+		for _, word := range []string{"active_keyset_key", "active_keyset", "keysets_key", "keysets", "keys", "mint_info_key", "info"} {
+			x.expectErr("unknown-keyset-12001(GET keys/"+word+")", x.call("GET", "/v1/keys/"+word, "\x00nobody"), 12001)
+		}
 		r = x.call("GET", "/v1/info", "\x00nobody")
 		if x.expect200("info", r) && r.obj != nil {
 			for _, k := range []string{"name", "pubkey", "version", "nuts"} {
